@@ -25,7 +25,7 @@ def log_runner(prop, tier):
                 if not th and not ((f in (m % nf, (m + sv + 1) % nf)) or m in (2, 4) and f == (sv + m) % nf):
                     continue
                 sev2 = (sv * 2 + m + f) % 7      # second statement: another severity, or none (6)  -- same formulas as log_variant.h
-                form, tag, nlazy = (m + f + sv) % 2, (m + 2 * f + sv // 2) % 2, (m * 5 + f * 3 + sv) % 3
+                form, tag, nlazy = (m + f + sv) % 3, (m + 2 * f + sv // 2) % 2, (m * 5 + f * 3 + sv) % 3
                 d = ['-DMINIDX=%d' % m, '-DFILT=%d' % f, '-DSEV=%d' % sv]
                 used[m] |= 1 << (f * 6 + sv)
                 outcomes = set((sv >= m) and fspec(f, t0, t1, sv) for t0 in range(6) for t1 in range(6))
@@ -33,7 +33,7 @@ def log_runner(prop, tier):
                 prof = [[0, 0, 97, 98, 99, 33, 42], [5, 5, 97, 0, 0, 33, 7], [2, 3, 0, 0, 98, 35, 99], [0, 5, 97, 98, 0, 36, 0], [3, 1, 97, 98, 99, 33, 10]]
                 qs.append(Query('m%d_f%d_s%d' % (m, f, sv), d, w, unwind=2, hardcap=16, est_gb=1, profile=prof,
                                 sample={'compile_time_minimum': SEVN[m], 'filter': FILTN[f], 'statement_severity': SEVN[sv], 'second_statement': SEVN[sev2] if sev2 < 6 else None,
-                                        'form': ['one expression', 'named stream object'][form], 'tag': bool(tag), 'lazy_callables': nlazy,
+                                        'form': ['one expression', 'named stream object', 'named stream object with another statement of the same severity issued while it is open'][form], 'tag': bool(tag), 'lazy_callables': nlazy,
                                         'symbolic': 'both runtime thresholds, streamed strings / char / integer'}))
                 if len(corpus) < 60:
                     corpus += [(d, p) for p in prof[:2]]
